@@ -96,6 +96,12 @@ func safeError(e error) (s string, ok bool) {
 
 // Kids returns the visible causes and the node kind.
 func Kids(e error) (string, []error) {
+	// (a node that has both Unwrap() []error and Cause() is listed with all its branches)
+	if me, ok := e.(interface{ Unwrap() []error }); ok {
+		if _, hybrid := e.(interface{ Cause() error }); hybrid {
+			return "m", me.Unwrap()
+		}
+	}
 	if c := errors.UnwrapOnce(e); c != nil {
 		return "w", []error{c}
 	}
@@ -125,7 +131,7 @@ func Hidden(e error) []error {
 	}
 	f := v.Elem().FieldByName(field)
 	if !f.IsValid() {
-		panic("harness: field " + field + " not found in " + ty)
+		return nil
 	}
 	x := reflect.NewAt(f.Type(), unsafe.Pointer(f.UnsafeAddr())).Elem().Interface()
 	if he, ok := x.(error); ok && he != nil {
@@ -218,7 +224,10 @@ func AccOf(e error) *Acc {
 		for _, t := range b.Get() {
 			layer = append(layer, tok.Lex(t.Key()), tok.Lex(t.ValueStr()))
 		}
-		a.Tags = append(a.Tags, layer)
+		// (a layer whose buffer is empty has neither keys nor values to show)
+		if len(layer) > 0 {
+			a.Tags = append(a.Tags, layer)
+		}
 	}
 	a.Domain = tok.Lex(string(errors.GetDomain(e)))
 	a.HasAssert = errors.HasAssertionFailure(e)
@@ -619,9 +628,9 @@ func FmtSpecs() []string {
 	var out []string
 	for _, verb := range []string{"v", "s", "q", "x", "X"} {
 		// (the flags C09 names: '-', '#', ' ', '0'; '+' selects the verbose form)
-		for _, flags := range []string{"", "-", "#", " ", "0", "-#", "# ", "-0", "#0"} {
-			if verb == "v" && strings.Contains(flags, "#") {
-				continue // %#v is the Go-syntax form
+		for _, flags := range []string{"", "-", "#", " ", "0", "-#", "# ", "-0", "#0", "+", "+-", "+#", "+0"} {
+			if verb == "v" && (strings.Contains(flags, "#") || strings.Contains(flags, "+")) {
+				continue // %#v is the Go-syntax form, %+v the verbose form
 			}
 			for _, w := range []string{"", "3", "40"} {
 				for _, pr := range []string{"", ".2", ".50"} {
